@@ -690,7 +690,7 @@ def _read(store, t2, what, spelling=None):
     from pyg_base._bitemporal import bi_read
     asof = None if t2 is None else stamp(t2)
     r = bi_read(store, asof if spelling is None or asof is None else spell(asof, spelling), what)
-    return {int((pd.Timestamp(t).to_pydatetime() - D0) // DAY): (None if v != v else (int(v) if float(v) == int(v) else float(v)))
+    return {int((pd.Timestamp(t).to_pydatetime() - D0) // DAY): (None if (v is None or v != v) else (int(v) if float(v) == int(v) else float(v)))
             for t, v in zip(r.index, r.values)}, len(r)
 
 
@@ -729,6 +729,13 @@ def laws(rng, tier, ctx):
                                 first_bad = Finding('violation', dict(tag='law-read-first-literal', lines=lines + [read_line(t, 0)], atomic=True,
                                                                      ordered=True, got=sorted(got.items())),
                                                     'bi_read(asof=%s, what=0) = %s but the first values published are %s' % (t, got, lit))
+            # what='last' is the default read (theorem read_str_last)
+            for t in T:
+                count += 1
+                a, b = _read(store, t, -1)[0], _read(store, t, 'last')[0]
+                if a != b and bad is None:
+                    bad = ('law-str-last', lines + [reads_line(t, 'last')],
+                           "bi_read(asof=%s, what='last') = %s but the default read is %s" % (t, b, a))
             # the read time in another spelling is the same read time
             for t in T:
                 if t is not None:
@@ -771,6 +778,36 @@ def laws(rng, tier, ctx):
                 yield Finding('violation', dict(tag=bad[0], lines=bad[1], atomic=True, ordered=True), bad[2])
             if first_bad is not None:
                 yield first_bad
+    # frames, column by column (theorem frame_read_last_columns): when per date every version carries a new stamp, what='last'
+    # is in every column the fold of that column's publications
+    from pyg_base._bitemporal import bi_read
+    for nd in (2, 4, 12):
+        for w in (2, 3):
+            for _ in range(max(2, m // 4)):
+                hist = gen_frame_history(rng, nd, rng.choice([2, 3, 4, 5]), w)
+                hist = [(j, rows) for j, (_, rows) in enumerate(hist)]            # distinct stamps
+                if not hist[0][1]:
+                    hist[0] = (0, [(0, [1] * w)])
+                store, lines, bad = None, [], None
+                for k, rows in hist:
+                    lines.append(fmerge_line(k, rows))
+                    store = bi_merge(store, Bi(_frame([(date(i), vs) for i, vs in rows], w), stamp(2 * k)))
+                for t in read_times(hist):
+                    count += 1
+                    r = bi_read(store, None if t is None else stamp(t), 'last')
+                    got = {int((pd.Timestamp(x).to_pydatetime() - D0) // DAY):
+                           [None if (v is None or v != v) else int(v) for v in (r[COLS[c]].values[i] for c in range(w))] for i, x in enumerate(r.index)}
+                    want = {}
+                    for k, rows in hist:
+                        if t is None or 2 * k <= t:
+                            for i, vs in rows:
+                                cur = want.setdefault(i, [None] * w)
+                                want[i] = [vs[c] if vs[c] is not None else cur[c] for c in range(w)]
+                    if got != want and bad is None:
+                        bad = (lines + [freads_line(t, 'last', w)],
+                               "bi_read(frame, asof=%s, what='last') = %s but column by column the publication log gives %s" % (t, got, want))
+                if bad is not None:
+                    yield Finding('violation', dict(tag='law-frame-last-columns', lines=bad[0], atomic=True, ordered=True), bad[1])
     yield count
 
 
